@@ -178,9 +178,9 @@ class C11(core.Property):
           '1..4 rounds, 1..3 leaves, leaf shapes / number of leaves constant or changing between rounds, tiny / '
           'mixed / large magnitudes; bit increment judged per round on that round\'s tree; round 0 replayed from '
           'init() at the end; failed attempts (client stream raises after k clients) followed by the retry from '
-          'the unchanged state, compared with a fresh aggregator object; client iterable = list / generator of fresh '
-          'trees / generator refilling one dict / generator overwriting numpy leaves in place, each compared with the '
-          'list result on a fresh object; one > 64-client round per aggregator), expectation estimates over 4096 keys (Bernstein bound, 1e-10), u==0 hunts, float32 range probes; '
+          'the unchanged state, compared with a fresh aggregator object; client iterable = list or one-shot generator '
+          'of fresh trees, the latter compared with the list result on a fresh object (producers that overwrite '
+          'objects they already yielded are evidence-only monitors); one > 64-client round per aggregator), expectation estimates over 4096 keys (Bernstein bound, 1e-10), u==0 hunts, float32 range probes; '
           'non-trivial = the vector has at least one coordinate strictly between two grid levels '
           '(quant/bias) or at least two clients with different trees (agg); distinct by case digest')
   TRUSTED = ['JAX PRNG idealisation: distinct key paths give independent uniform streams (C11_keys_fresh '
@@ -316,12 +316,16 @@ class C11(core.Property):
     # real attempt from the unchanged state on the same aggregator object.  Every arithmetic-coding
     # history has one; the other aggregators alternate (so each has faulted and fault-free histories).
     faulted = cohort is None and (agg == 'uniform_arith' or ((idx // 8) + (idx % 8)) % 2 == 0)
-    # how the client iterable is produced: a list of fresh trees, a generator of fresh trees, a
-    # generator that refills ONE dict object between yields, or one that overwrites the numpy leaf
-    # buffers of ONE tree in place (the aggregators consume a one-pass Iterable, so a streaming
-    # producer may reuse its container).  Stratified: every aggregator slot meets all four per run.
-    FEED = ['list', 'rebind', 'inplace', 'gen']
+    # how the client iterable is produced: a list of fresh trees or a one-shot generator of FRESH
+    # trees (the aggregators take an Iterable; nothing says it can be iterated twice).  Stratified:
+    # every aggregator slot meets both in every run.  Producers that overwrite objects they have
+    # already yielded ('rebind': one dict refilled, 'inplace': numpy leaves overwritten) are NOT part
+    # of the property - a consumer may legitimately hold several yielded items at once (a block, a
+    # list) - and are run as evidence-only monitors (two per run), never as oracle or correspondence.
+    FEED = ['list', 'gen', 'gen', 'list']
     feed = FEED[((idx // 8) + (idx % 8) // 2) % 4] if cohort is None else rng.choice(FEED)
+    if cohort is None and idx % 16 == 5:
+      feed = ['rebind', 'inplace'][(idx // 16) % 2]
     if cohort is not None:
       # one round with more than 64 clients (key streams that repeat or run out only show here)
       shapes = [rng.choice([[1], [3]])]
@@ -368,7 +372,8 @@ class C11(core.Property):
             'seed': rng.randrange(1 << 30), 'feed': feed}
     if faulted:
       n = len(rounds[fault_round])
-      # k = number of clients consumed before the stream raises (k = 0: nothing consumed; k = n: all)
+      # k = number of clients the stream yields before it raises (k = 0: none; k = n: all). How many of
+      # them the aggregator had already processed at that point is not assumed anywhere.
       ks = [rng.choice([1, 1, 2, n]) if agg == 'uniform_arith' else rng.randrange(0, n + 1)]
       if rng.random() < 0.3:
         ks.append(rng.randrange(0, n + 1))        # two failed attempts in a row
@@ -780,6 +785,8 @@ class C11(core.Property):
     ALL = [chr(ord('a') + i) for i in range(max(len(x) for x in rs))]   # dict keys flatten in sorted order
     root = jax.random.PRNGKey(seed)
     problems, corr, okey = [], [], None
+    # producers that mutate what they already yielded: evidence only (see gen_agg)
+    monitor_only = case.get('feed', 'list') in ('rebind', 'inplace')
 
     def fail(msg, key):
       nonlocal okey
@@ -873,7 +880,7 @@ class C11(core.Property):
         # client updates are jax arrays owned by the caller
         cpw = [(b'c%d' % i, tree_of(lv, shapes), w) for i, (lv, w) in enumerate(clients)]
         snaps = [[np.asarray(lv, np.float32).reshape(sh) for lv, sh in zip(leaves, shapes)] for leaves, _ in clients]
-        # failed attempts of this round: the client stream raises after k clients were consumed;
+        # failed attempts of this round: the client stream raises after yielding k clients;
         # the caller then retries from the unchanged state on the same aggregator object
         for k in faults.get(r, []):
           def stream(k=k):
@@ -950,6 +957,13 @@ class C11(core.Property):
     finally:
       for (mod, name), f in orig.items():
         setattr(mod, name, f)
+
+    if monitor_only:
+      same = bool(impl_rounds) and len(impl_rounds) == len(case['rounds']) and not problems and all(
+          ir['ref'] is not None and not same_result(ir['out'], ir['st'], *ir['ref']) for ir in impl_rounds)
+      ctx.count('mutating_producer_equal_to_list' if same else 'mutating_producer_differs_from_list')
+      return Outcome(nontrivial=False, tags=(f'agg={a}', f'feed={case["feed"]}(monitor only)'),
+                     detail={'equal_to_list_of_fresh_trees': same})
 
     # ---- model: bit accounting and exact weighted mean (no draws involved)
     R = len(case['rounds'])
@@ -1113,12 +1127,9 @@ class C11(core.Property):
         if diffs:
           how = []
           if case.get('faults'):
-            how.append(f'after failed attempts {case.get("faults")} as [round, clients consumed]')
+            how.append(f'after failed attempts {case.get("faults")} as [round, clients the stream yielded before raising]')
           if case.get('feed', 'list') != 'list':
-            how.append({'gen': 'clients fed by a generator of fresh trees',
-                        'rebind': 'clients fed by a generator that refills one dict object between yields',
-                        'inplace': 'clients fed by a generator that overwrites the numpy leaves of one tree in place'
-                        }[case['feed']])
+            how.append('clients fed by a one-shot generator of fresh trees')
           fail(f'round {r} ({"; ".join(how)}) differs from the same round given as a list of fresh trees '
                f'to a fresh aggregator object: ' + ', '.join(diffs),
                'retry-differs' if case.get('faults') and case.get('feed', 'list') == 'list' else 'stream-differs')
